@@ -290,12 +290,62 @@ class Param:
     def __bool__(self):
         raise AnalysisError('unsupported', 'control flow on the symbolic magnitude bias')
 
+    # comparisons: decided when the sign of the difference is fixed for every positive value of the parameters
+    def _cmp(self, o, test):
+        w = self._wrap(o)
+        if w is None:
+            return NotImplemented
+        d = s_add(self.expr, w, -1)
+        sg = _param_sign(d)
+        if sg is not None:
+            return test(sg)
+        if dtype_dependent(d):
+            from .ops import DomainViolation
+            raise DomainViolation('R-DTYPE', 'a comparison with a dtype-dependent constant (torch.finfo) decides a '
+                                  'value on the data path: the float32 and the float64 computation are different '
+                                  'functions of the input, not the same function up to rounding')
+        raise AnalysisError('unsupported', 'comparison of symbolic parameters (%r vs %r) decides control flow'
+                            % (self.expr, w))
+
+    def __gt__(self, o):
+        return self._cmp(o, lambda s: s > 0)
+
+    def __ge__(self, o):
+        return self._cmp(o, lambda s: s >= 0)
+
+    def __lt__(self, o):
+        return self._cmp(o, lambda s: s < 0)
+
+    def __le__(self, o):
+        return self._cmp(o, lambda s: s <= 0)
+
     def __repr__(self):
         return 'Param(%r)' % (self.expr,)
 
 
 def is_param(x):
     return isinstance(x, Param)
+
+
+DTYPE_CONSTANTS = ('eps[', 'tiny[', 'max[', 'min[')
+
+
+def dtype_dependent(expr):
+    """does the expression mention a torch.finfo(dtype) constant?"""
+    return any(a.kind == 'param' and str(a.key).startswith(DTYPE_CONSTANTS) for a in expr.atoms())
+
+
+def _param_sign(d):
+    """+1 / 0 / -1 if the Sum d (over positive symbolic parameters only) has that sign for all parameter values"""
+    if d.is_zero():
+        return 0
+    signs = set()
+    for m, c in d.d.items():
+        if any(a.kind != 'param' or str(a.key).startswith('min[') for a, e in m):
+            return None
+        f = float(c)
+        signs.add(1 if f > 0 else -1)
+    return signs.pop() if len(signs) == 1 else None
 
 
 # ------------------------------------------------------------------- tensors
@@ -346,6 +396,10 @@ def _operand(x):
     if isinstance(x, DataT):
         return 'tensor', to_nl(x)
     if isinstance(x, Param):
+        if HOOKS['event'] and dtype_dependent(x.expr):
+            HOOKS['event']('dtype-constant-on-data-path',
+                           names=sorted(str(a.key) for a in x.expr.atoms()
+                                        if a.kind == 'param' and str(a.key).startswith(DTYPE_CONSTANTS)))
         return 'scalar', x.expr
     if is_const_scalar(x) or isinstance(x, Q2):
         return 'scalar', s_const(x)
@@ -402,7 +456,15 @@ def _bcast_cells(t, dims):
     return np.broadcast_to(cells, tuple(tgt))
 
 
-def pointwise(op, *args):
+def pointwise(op, *args, **kwargs):
+    if kwargs:
+        args = args + tuple('%s=%r' % (k, v) for k, v in sorted(kwargs.items()))
+        for v in kwargs.values():
+            if isinstance(v, Param):
+                _operand(v)           # records dtype-dependent constants
+    for v in args[1:]:
+        if isinstance(v, Param) and op not in ('add', 'sub', 'mul', 'div', 'pow'):
+            _operand(v)
     if not HOOKS['allow_nl']:
         # linear contexts still need products with constants etc.; those never reach here
         raise _violation(op)
